@@ -96,12 +96,13 @@ func (v *formatter_) GetMaximum() int {
 // Public
 
 func (v *formatter_) FormatValue(value any) (source string) {
-	// Start afresh: an earlier call that panicked must not leak into this one.
-	v.result_.Reset()
-	v.depth_ = 0
-	v.formatValue(value)
-	v.appendNewline()
-	source = v.getResult()
+	// The text and the depth belong to this call: one formatter stands behind
+	// every collection of a type (through the class notation), and an earlier
+	// call that panicked must not leak into this one.
+	var traversal = &formatter_{class_: v.class_, maximum_: v.maximum_}
+	traversal.formatValue(value)
+	traversal.appendNewline()
+	source = traversal.getResult()
 	return source
 }
 
